@@ -27,10 +27,10 @@ Definition p_inv (cmd : command) : invocation :=
      i_desc := false; i_silent := false; i_cmd := cmd |}.
 
 Lemma p_no_error_log : no_parse_error ZNum (events ZNum p_log).
-Proof. intros e H. vm_compute in H. repeat (destruct H as [H|H]; [discriminate|]). exact H. Qed.
+Proof. apply no_err_b_sound. vm_compute. reflexivity. Qed.
 
 Lemma p_no_error_book : no_parse_error ZNum (events ZNum p_book).
-Proof. intros e H. vm_compute in H. repeat (destruct H as [H|H]; [discriminate|]). exact H. Qed.
+Proof. apply no_err_b_sound. vm_compute. reflexivity. Qed.
 
 (** the hypotheses of [quantity_program], [csv_log_program], [unresolved_program], [balance_program],
     [stats_program] hold in this world *)
